@@ -26,6 +26,19 @@ def _strip_line(line):
     return {k: v for k, v in line.items() if k != "obs"}
 
 
+def _sample_line(line):
+    """a trace line for the evidence file: bulky fields are summarised"""
+    out = {}
+    for k, v in line.items():
+        if k in ("obs", "cobs", "src", "src2"):
+            continue
+        if isinstance(v, list) and len(v) > 6:
+            out[k] = v[:6] + ["... %d more" % (len(v) - 6)]
+        else:
+            out[k] = v
+    return out
+
+
 class Check:
     def __init__(self, prop, tier, seed, prefixes=None, level="model_checking"):
         self.prop = prop
@@ -79,8 +92,8 @@ class Check:
                     self.distinct.add(hashlib.md5((prev_raw + call).encode()).digest()[:8])
                 if not ln.get("fork"):
                     prev_raw = raw
-            if len(self.samples) < 3 and len(tr) > 2:
-                self.samples.append([_strip_line(x) for x in tr[:12]])
+            if len(self.samples) < 3 and (len(tr) > 2 or tr[-1]["op"] not in ("new", "observe")):
+                self.samples.append([_sample_line(x) for x in tr[:12]])
             for (lno, clause, status) in v["fails"]:
                 if not clause.startswith(self.prefixes):
                     continue
